@@ -22,7 +22,7 @@
    [ufold C]/[efold C]: unspent outputs / events derived from the chain C alone.
    [scur series]: the value Store.Metrics reports at any time not before the newest data point. *)
 From HostdBase Require Import Base.
-From HostdWallet Require Import Model Lib Proofs ProofsAnn.
+From HostdWallet Require Import Model Lib Proofs ProofsAnn ProofsTotal.
 
 (* every well-formed operation list run through the model's [step] (the function the
    correspondence check executes against the implementation) ends in a [reach]able state *)
@@ -106,6 +106,15 @@ Theorem c16_tip_marker : forall s C, reach s C ->
   match C with [] => True | b :: _ => tip s = Some (ab_idx b) end.
 Proof. exact reach_tip_ok. Qed.
 Print Assumptions c16_tip_marker.
+
+(* a well-formed batch never fails and never panics (no "not found", no negative stat value,
+   no currency overflow) as long as the total value ever paid to the wallet on the chains
+   involved stays in the currency range; [csum C] = sum of all outputs created for the wallet on C *)
+Theorem c16_batch_never_fails : forall s C rs bs, reach s C -> wf_batch C rs bs ->
+  (csum C < two128)%N -> (csum (chain_after C rs bs) < two128)%N ->
+  exists s', batch s rs bs = Ok s'.
+Proof. exact batch_never_fails. Qed.
+Print Assumptions c16_batch_never_fails.
 
 (* ResetChainState empties all of it, including the v2 announcement hash *)
 Theorem c16_reset : forall s, reset s = init /\ utxos (reset s) = [] /\ events (reset s) = [] /\
